@@ -504,6 +504,30 @@ def c20_reject(ctx, case):
              % (via, N, name, kw, case["bad"], len(res)), sig={"name": name, "bad": case["bad"], "via": via})
 
 
+PLAUSIBLE = {"beta": 5.0, "alpha": 2.5, "attenuation": 60, "mode": "periodic", "r": 0.5, "nbar": 6, "sll": -40,
+             "precision": "octave", "method": "other"}
+
+
+def enum_reject(tier):
+    for name in NAMES:
+        own = PARAMS.get(name, [])
+        for bad in [p for p in ALL_PARAM_NAMES if p not in own] + JUNK_PARAM_NAMES:
+            for via in ("create_window", "Window"):
+                for mixed in ([False, True] if own else [False]):
+                    kw = {bad: PLAUSIBLE.get(bad, 2.5)}
+                    if mixed:
+                        kw[own[0]] = DEFAULTS[name][own[0]]
+                    yield {"name": name, "N": 33, "kw": [[k, kw[k]] for k in sorted(kw)], "bad": bad, "mixed": mixed, "via": via}
+
+
+@sub("C20.reject_all", enum=enum_reject, exhaustive=True, shards_quick=2, shards_thorough=2,
+     doc="every window name x every keyword that is not one of its documented shape parameters (the parameters of the other windows, "
+         "technical arguments of the implementation such as method / precision, misspellings) x factory / Window x alone / next to "
+         "a valid keyword: ValueError")
+def c20_reject_all(ctx, case):
+    c20_reject(ctx, case)
+
+
 # --------------------------------------------------------------------------
 # the Window object keeps reporting the same samples while it is being used
 # --------------------------------------------------------------------------
@@ -561,6 +585,36 @@ def c20_object_use(ctx, case):
     ctx.check(_same_scalar(obj.enbw, W.enbw(w)), "Window.enbw=%r after use, enbw(samples)=%r" % (obj.enbw, W.enbw(w)), sig=sig)
     # the factory itself must not have been affected either
     ctx.check(_same(W.create_window(N, name), w), "create_window(%d, %r) changed after a Window object was used" % (N, name), sig=sig)
+
+
+# ---- the caller owns what it gets -------------------------------------------------------------------------------------------
+@st.composite
+def own_case(draw):
+    name = draw(evenly(NAMES))
+    return {"name": name, "N": draw(st.one_of(st.integers(3, 64), st.sampled_from([65, 128, 257]))),
+            "via": draw(st.sampled_from(["factory", "factory", "Window"]))}
+
+
+@sub("C20.reuse", strategy=own_case(), quick=300, thorough=6000,
+     doc="a window obtained from the factory (or Window.data) and then changed in place by its caller (normalised, zeroed) does not "
+         "change what the next request for the same window returns: every request gives the closed-form samples")
+def c20_reuse(ctx, case):
+    name, N = case["name"], case["N"]
+    _labels(ctx, name, N)
+    ctx.nontrivial(True)
+    get = (lambda: W.create_window(N, name)) if case["via"] == "factory" else (lambda: W.Window(N, name).data)
+    first = np.array(get(), dtype=float, copy=False)
+    keep = first.copy()
+    try:
+        first /= max(float(np.sum(first)), 1e-300)          # the caller normalises its copy in place ...
+        first[0] = -7.0                                      # ... and overwrites a sample
+    except ValueError:
+        pass                                                 # a read-only result is also fine
+    second = np.asarray(get(), dtype=float)
+    ctx.check(second.shape == keep.shape and np.array_equal(second, keep),
+              "%s(N=%d) requested again after the caller modified the first result in place: samples differ (first sample %r, expected %r)"
+              % (name, N, second[0] if second.size else None, keep[0] if keep.size else None), sig=_sig(name, N, "reuse"))
+    check_closed(ctx, second, name, N)
 
 
 # ---- call-form invariance (documented parameter names) ----------------------------
